@@ -24,6 +24,10 @@ ASSUMPTIONS = ["explicit values only (no pending defaults) and no sharing: the s
 
 class Node(HasTraits):
     value = Int
+    # two attributes carrying the metadata `lvl` - with FALSY values (a name ending in `+lvl` selects every trait whose
+    # `lvl` metadata is defined, i.e. not None)
+    m0 = Int(lvl=0)
+    m1 = Int(lvl=False)
     child = Instance(HasTraits)
     child2 = Instance(HasTraits)          # second Instance link, used in the bracket group [child,child2]
     children = List(Instance(HasTraits))
@@ -72,14 +76,14 @@ def follow(o, l):
     return list(v.values()) if l == "table" else list(v)
 
 
-def names(p):
+def names(p, final="value"):
     otc = obs = ""
     for (l, n) in p:
         sep = "." if n else ":"
         otc += l + sep
         obs += l + sep + ("items" + sep if l in CONTAINERS else "")
     # (a bracket group is written the same way in both systems)
-    return otc + "value", obs + "value"
+    return otc + final, obs + final
 
 
 def reachable(root, p):
@@ -124,6 +128,8 @@ def strategy(tier):
         # node class whose container links have `_<name>_default` methods (unused: all values are explicit)
         "dyn_defaults": st.sampled_from([False, False, True]),
         "decoy": st.sampled_from([False, False, True]),
+        # the final segment: the attribute `value`, or every attribute that defines the metadata `lvl`
+        "final": st.sampled_from(["value", "value", "+lvl"]),
     })
 
 
@@ -140,7 +146,12 @@ def run(case, ctx):
         else:
             p = [[l, False] for l, _ in p]
         ctx.label("short-handler-signature")
-    otc_name, obs_name = names(p)
+    final = case.get("final") or "value"
+    if sig != 4:
+        final = "value"
+    if final != "value":
+        ctx.label("final-segment-selected-by-metadata")
+    otc_name, obs_name = names(p, final)
     created = []
 
     def init(n):
@@ -166,12 +177,13 @@ def run(case, ctx):
     from traits.api import push_exception_handler as _push, pop_exception_handler as _pop
     _push(handler=lambda *a: None, reraise_exceptions=False, main=True)
     try:
-        return _run_body(case, ctx, p, sig, loud_short, otc_name, obs_name, created, fresh, root, A, B, eqn)
+        return _run_body(case, ctx, p, sig, loud_short, otc_name, obs_name, created, fresh, root, A, B, eqn, final)
     finally:
         _pop()
 
 
-def _run_body(case, ctx, p, sig, loud_short, otc_name, obs_name, created, fresh, root, A, B, eqn):
+def _run_body(case, ctx, p, sig, loud_short, otc_name, obs_name, created, fresh, root, A, B, eqn, final="value"):
+    finals = ("value",) if final == "value" else ("m0", "m1")
 
     if sig == 4:
         def h_otc(obj, name, old, new):
@@ -204,19 +216,20 @@ def _run_body(case, ctx, p, sig, loud_short, otc_name, obs_name, created, fresh,
     def probe(tag):
         r = reachable(root, p)
         for n in list(created):
+          for fa in finals:
             del A[:], B[:]
-            n.value += 1
-            a = [x for x in A if x == (id(n), "value")] if sig == 4 else list(A)
-            b = [x for x in B if x == (id(n), "value")]
+            setattr(n, fa, getattr(n, fa) + 1)
+            a = [x for x in A if x == (id(n), fa)] if sig == 4 else list(A)
+            b = [x for x in B if x == (id(n), fa)]
             exp = 1 if id(n) in r else 0
             if len(a) != exp:
                 ctx.fail("legacy/%s" % ("missed" if exp else "unexpected"),
-                         "%r after %r: changing %r.value called the legacy handler %d time(s), expected %d (observe: %d)"
-                         % (otc_name, tag, n, len(a), exp, len(b)))
+                         "%r after %r: changing %r.%s called the legacy handler %d time(s), expected %d (observe: %d)"
+                         % (otc_name, tag, n, fa, len(a), exp, len(b)))
             if len(b) != exp:
                 ctx.fail("observe/%s" % ("missed" if exp else "unexpected"),
-                         "%r after %r: changing %r.value called the observe handler %d time(s), expected %d"
-                         % (obs_name, tag, n, len(b), exp))
+                         "%r after %r: changing %r.%s called the observe handler %d time(s), expected %d"
+                         % (obs_name, tag, n, fa, len(b), exp))
             ctx.label("probe-reachable" if exp else "probe-unreachable")
     probe("registration")
     for op in case["ops"]:
@@ -234,8 +247,7 @@ def _run_body(case, ctx, p, sig, loud_short, otc_name, obs_name, created, fresh,
         del A[:], B[:]
         link = None
         old_vals = {"child": n.child, "child2": n.child2, "children": list(n.children), "table": dict(n.table), "group": set(n.group)}
-        if eqn and k in ("set_children", "set_table", "set_group"):
-            continue          # (assigning a container that compares EQUAL to the old one is, by design, not a change)
+        equal_swap = False
         if k == "set_child":
             new_child = fresh() if op[2] else None
             if new_child is not None and len(op) > 4 and op[4]:
@@ -247,7 +259,9 @@ def _run_body(case, ctx, p, sig, loud_short, otc_name, obs_name, created, fresh,
                 ctx.label("link-assigned-a-populated-object")
             old_link_value = n.child2 if (len(op) > 3 and op[3]) else n.child
             if eqn and new_child is not None and old_link_value is not None and new_child == old_link_value:
-                new_child.__dict__["_eqk"] = 1 - new_child.__dict__["_eqk"]        # (same reason: keep it a real change)
+                # a distinct object that compares EQUAL to the old one: whether the assignment itself is REPORTED is the
+                # comparison mode's business (not compared); the listeners must move to the new object all the same
+                equal_swap = True
             if len(op) > 3 and op[3]:
                 n.child2 = new_child
                 link = "child2"
@@ -264,7 +278,9 @@ def _run_body(case, ctx, p, sig, loud_short, otc_name, obs_name, created, fresh,
             except IndexError:
                 pass
         elif k == "set_children":
-            n.children = [fresh() for _ in range(op[2])]
+            new_c = [fresh() for _ in range(op[2])]
+            equal_swap = eqn and new_c == old_vals["children"] and bool(new_c)
+            n.children = new_c
             link = "children"
         elif k == "slice":
             n.children[0:1] = [fresh() for _ in range(op[2])]
@@ -289,7 +305,9 @@ def _run_body(case, ctx, p, sig, loud_short, otc_name, obs_name, created, fresh,
                 interesting = True
                 ctx.label("update-adds-and-overwrites")
         elif k == "set_table":
-            n.table = {key: fresh() for key in op[2]}
+            new_c = {key: fresh() for key in op[2]}
+            equal_swap = eqn and new_c == old_vals["table"] and bool(new_c)
+            n.table = new_c
             link = "table"
         elif k == "group_add":
             n.group.add(fresh())
@@ -297,11 +315,18 @@ def _run_body(case, ctx, p, sig, loud_short, otc_name, obs_name, created, fresh,
             if n.group:
                 n.group.pop()
         elif k == "set_group":
-            n.group = {fresh() for _ in range(op[2])}
+            new_c = {fresh() for _ in range(op[2])}
+            equal_swap = eqn and new_c == old_vals["group"] and bool(new_c)
+            n.group = new_c
             link = "group"
         if sig != 4 and A and not loud_short:
             ctx.fail("links/quiet-link-reported", "%r: %r on %r (all links quiet) called the %d-argument legacy handler: %r"
                      % (otc_name, op, n, sig, A))
+        if equal_swap:
+            interesting = True
+            ctx.label("link-assigned-an-equal-but-distinct-value")
+            link = None
+            del A[:], B[:]
         if link is not None and sig != 4:
             interesting = True
             ctx.label("link-repointed")
@@ -339,6 +364,8 @@ def _run_body(case, ctx, p, sig, loud_short, otc_name, obs_name, created, fresh,
     for n in created:
         del A[:], B[:]
         n.value += 1
+        n.m0 += 1
+        n.m1 += 1
         if A:
             ctx.fail("removal/legacy-still-called", "%r: legacy handler called after remove=True (%r)" % (otc_name, A))
         if B:
